@@ -198,8 +198,11 @@ impl<H: Host> Emulator<H> {
 //@ end
 }
 
+/// what the zlib decoder makes of a byte string (miniz_oxide, assumed: a function of the bytes)
+pub uninterp spec fn inflate(bytes: Seq<u8>) -> Option<Seq<u8>>;
 #[verifier::external_body]
 pub fn decompress_zlib_stream(bytes: &[u8]) -> (r: Result<Vec<u8>>)
+    ensures r is Ok == inflate(bytes@) is Some, r is Ok ==> r->Ok_0@ == inflate(bytes@)->Some_0,
 { unimplemented!() }
 
 /// std functions without a vstd spec (trusted, enumerated)
@@ -321,6 +324,14 @@ pub open spec fn ramp_page(machine_id: u32, p: u8) -> u8 {
             // a stored page: exactly the 16384 bytes after the 3-byte prefix become that RAM bank
             &&& (stored && (page as int) < old(emulator).ram_pages() && d.len() - 3 >= 16384) ==> r is Ok
                     && final(emulator).controller.memory.ram_page(page) == d.subrange(3, 16387)
+            // a compressed page: the first 16384 bytes of the inflated payload; a stream that does not
+            // inflate, or inflates to less than a page, is rejected
+            &&& (!stored && (page as int) < old(emulator).ram_pages()) ==> ({
+                    let z = inflate(d.subrange(3, d.len() as int));
+                    &&& (z is None || z->Some_0.len() < 16384) ==> r is Err
+                    &&& (z is Some && z->Some_0.len() >= 16384) ==> r is Ok
+                            && final(emulator).controller.memory.ram_page(page) == z->Some_0.subrange(0, 16384)
+                })
             // no other bank is touched, whatever the outcome
             &&& forall|q: u8| q != page ==> final(emulator).controller.memory.ram_page(q) == old(emulator).controller.memory.ram_page(q)
             &&& r is Err ==> forall|q: u8| final(emulator).controller.memory.ram_page(q) == old(emulator).controller.memory.ram_page(q)
